@@ -50,6 +50,9 @@ type Faults struct {
 	Drop, Dup, Reorder, Campaign, Partition bool
 	CampaignAt                              []int // restrict Campaign to peers on these stores (nil = any store)
 	IsolateAt                               []int // restrict partitions to isolating one of these stores (nil = any store)
+	Restart                                 bool  // crash + restart of a store (WAL-backed scenarios only)
+	RestartAt                               []int // restrict restarts to these stores (nil = any)
+	ReorderTo                               []int // restrict out-of-order delivery to links into these stores (nil = any)
 }
 
 func allowed(set []int, s int) bool {
@@ -73,7 +76,11 @@ func (f Faults) String() string {
 		s = append(s, "dup")
 	}
 	if f.Reorder {
-		s = append(s, "reorder")
+		if len(f.ReorderTo) > 0 {
+			s = append(s, fmt.Sprintf("reorder(links into stores %v)", f.ReorderTo))
+		} else {
+			s = append(s, "reorder")
+		}
 	}
 	if f.Campaign {
 		if len(f.CampaignAt) > 0 {
@@ -88,6 +95,9 @@ func (f Faults) String() string {
 		} else {
 			s = append(s, "partition+heal")
 		}
+	}
+	if f.Restart {
+		s = append(s, fmt.Sprintf("crash-restart@stores%v", f.RestartAt))
 	}
 	if len(s) == 0 {
 		return "none"
@@ -113,7 +123,9 @@ type Scenario struct {
 	// discarded and re-run (the self-campaign outcome is covered by explicit Campaign
 	// transitions), so the explored outcome is deterministic.
 	LeaseTickAt []int
-	MaxDepth    int
+	// Prelude: transitions applied as part of the initial state (after the initial elections)
+	Prelude  []string
+	MaxDepth int
 	// DepthBound: MaxDepth is a declared bound (all states reachable by at most MaxDepth
 	// transitions are expanded, exactly). Otherwise MaxDepth is only a safety net and the
 	// scenario is expected to close (no enabled transition left anywhere).
@@ -139,6 +151,9 @@ func (sc *Scenario) Describe() string {
 	}
 	if len(sc.LeaseTickAt) > 0 {
 		storage += fmt.Sprintf(" follower-clock-advance(%d ticks)@stores%v", ElectionTick, sc.LeaseTickAt)
+	}
+	if len(sc.Prelude) > 0 {
+		storage += " prelude=[" + strings.Join(sc.Prelude, " ") + "]"
 	}
 	beats := fmt.Sprint(sc.MaxBeats)
 	if len(sc.BeatAt) > 0 && sc.MaxBeats > 0 {
@@ -334,25 +349,26 @@ const (
 
 // Cluster is one live 3-store cluster.
 type Cluster struct {
-	sc     *Scenario
-	stores [NumStores + 1]*store.Store
-	recs   [NumStores + 1]*recorder
-	peers  map[uint64]*peer.Peer
-	pids   []uint64
-	metas  map[int]manifest.RegionMeta
-	net    *network
-	calls  []*Call
-	devs   int
-	beats  map[uint64]int
-	step   int
-	errs   []string            // raft Step errors observed (part of the state)
-	votes  map[uint64][]string // per peer: (pre)vote responses delivered to it (raft keeps the tally privately)
-	wait   func()              // synctest.Wait
-	closed bool
-	lease  map[uint64]int // follower peers that already received their ElectionTick ticks
-	dir    string
-	wals   [NumStores + 1]*wal.Manager
-	mans   [NumStores + 1]*manifest.Manager
+	sc       *Scenario
+	stores   [NumStores + 1]*store.Store
+	recs     [NumStores + 1]*recorder
+	peers    map[uint64]*peer.Peer
+	pids     []uint64
+	metas    map[int]manifest.RegionMeta
+	net      *network
+	calls    []*Call
+	devs     int
+	beats    map[uint64]int
+	step     int
+	errs     []string            // raft Step errors observed (part of the state)
+	votes    map[uint64][]string // per peer: (pre)vote responses delivered to it (raft keeps the tally privately)
+	wait     func()              // synctest.Wait
+	closed   bool
+	restarts [NumStores + 1]int
+	lease    map[uint64]int // follower peers that already received their ElectionTick ticks
+	dir      string
+	wals     [NumStores + 1]*wal.Manager
+	mans     [NumStores + 1]*manifest.Manager
 }
 
 // RetryPrefix marks an execution error that stems from raft's internal randomness: the
@@ -397,24 +413,9 @@ func NewCluster(sc *Scenario, wait func()) (*Cluster, error) {
 		c.dir = fmt.Sprintf("%s/x%d-%d", ScratchBase, os.Getpid(), execSeq)
 	}
 	for s := 1; s <= NumStores; s++ {
-		rc := &recorder{kv: map[string]string{}}
-		c.recs[s] = rc
-		cfg := store.Config{StoreID: uint64(s), CommandApplier: rc.apply}
-		if sc.WAL {
-			// as in production (cmd/nokv serve): one WAL manager and one manifest per store,
-			// shared by the store's region catalog and all of its peers
-			w, err := wal.Open(wal.Config{Dir: fmt.Sprintf("%s/s%d/wal", c.dir, s)})
-			if err != nil {
-				return nil, err
-			}
-			m, err := manifest.Open(fmt.Sprintf("%s/s%d/manifest", c.dir, s), nil)
-			if err != nil {
-				return nil, err
-			}
-			c.wals[s], c.mans[s] = w, m
-			cfg.Manifest = m
+		if err := c.openStore(s); err != nil {
+			return nil, err
 		}
-		c.stores[s] = store.NewStoreWithConfig(cfg)
 	}
 	for r := 1; r <= sc.Regions; r++ {
 		meta := manifest.RegionMeta{ID: uint64(r), Epoch: manifest.RegionEpoch{Version: 1, ConfVersion: 1}, State: manifest.RegionStateRunning}
@@ -432,24 +433,10 @@ func NewCluster(sc *Scenario, wait func()) (*Cluster, error) {
 		}
 		c.metas[r] = meta
 		for s := 1; s <= NumStores; s++ {
-			id := peerID(r, s)
-			cfg := &peer.Config{
-				// the production settings of cmd/nokv serve / raftstore/server
-				RaftConfig: myraft.Config{ID: id, ElectionTick: ElectionTick, HeartbeatTick: HeartbeatTick,
-					MaxSizePerMsg: 1 << 20, MaxInflightMsgs: 256, PreVote: true},
-				Transport: c.net,
-				Apply:     func([]myraft.Entry) error { return fmt.Errorf("clustermc: store did not install its applier") },
-				GroupID:   uint64(r),
-				Region:    manifest.CloneRegionMetaPtr(&meta),
-				WAL:       c.wals[s],
-				Manifest:  c.mans[s],
+			if err := c.startPeer(r, s); err != nil {
+				return nil, err
 			}
-			p, err := c.stores[s].StartPeer(cfg, boot)
-			if err != nil {
-				return nil, fmt.Errorf("start peer %d: %w", id, err)
-			}
-			c.peers[id] = p
-			c.pids = append(c.pids, id)
+			c.pids = append(c.pids, peerID(r, s))
 		}
 	}
 	sort.Slice(c.pids, func(i, j int) bool { return c.pids[i] < c.pids[j] })
@@ -479,9 +466,107 @@ func NewCluster(sc *Scenario, wait func()) (*Cluster, error) {
 			return nil, fmt.Errorf("peer %d did not become leader: %v", id, st.RaftState)
 		}
 	}
+	// fixed prelude (part of the initial state; its deviations are not charged)
+	for _, tr := range sc.Prelude {
+		if err := c.Apply(tr); err != nil {
+			return nil, fmt.Errorf("prelude %q: %w", tr, err)
+		}
+	}
 	c.net.sent, c.net.lost = 0, 0
 	c.errs = nil
+	c.devs, c.step = 0, 0
+	for k := range c.beats {
+		delete(c.beats, k)
+	}
 	return c, nil
+}
+
+// openStore creates (or, after a crash, re-creates) store s: fresh recorder, and for WAL
+// scenarios the WAL and manifest managers opened on the store's directory.
+func (c *Cluster) openStore(s int) error {
+	rc := &recorder{kv: map[string]string{}}
+	c.recs[s] = rc
+	cfg := store.Config{StoreID: uint64(s), CommandApplier: rc.apply}
+	if c.sc.WAL {
+		// as in production (cmd/nokv serve): one WAL manager and one manifest per store,
+		// shared by the store's region catalog and all of its peers
+		w, err := wal.Open(wal.Config{Dir: fmt.Sprintf("%s/s%d/wal", c.dir, s), BufferSize: 8 << 10}) // small I/O buffer: performance knob only
+		if err != nil {
+			return err
+		}
+		m, err := manifest.Open(fmt.Sprintf("%s/s%d/manifest", c.dir, s), nil)
+		if err != nil {
+			return err
+		}
+		c.wals[s], c.mans[s] = w, m
+		cfg.Manifest = m
+	}
+	c.stores[s] = store.NewStoreWithConfig(cfg)
+	return nil
+}
+
+func (c *Cluster) startPeer(r, s int) error {
+	meta := c.metas[r]
+	var boot []myraft.Peer
+	for _, pm := range meta.Peers {
+		boot = append(boot, myraft.Peer{ID: pm.PeerID})
+	}
+	id := peerID(r, s)
+	cfg := &peer.Config{
+		// the production settings of cmd/nokv serve / raftstore/server
+		RaftConfig: myraft.Config{ID: id, ElectionTick: ElectionTick, HeartbeatTick: HeartbeatTick,
+			MaxSizePerMsg: 1 << 20, MaxInflightMsgs: 256, PreVote: true},
+		Transport: c.net,
+		Apply:     func([]myraft.Entry) error { return fmt.Errorf("clustermc: store did not install its applier") },
+		GroupID:   uint64(r),
+		Region:    manifest.CloneRegionMetaPtr(&meta),
+		WAL:       c.wals[s],
+		Manifest:  c.mans[s],
+	}
+	p, err := c.stores[s].StartPeer(cfg, boot)
+	if err != nil {
+		return fmt.Errorf("start peer %d: %w", id, err)
+	}
+	c.peers[id] = p
+	return nil
+}
+
+// crashRestart models the death of store s's process and its restart: all in-memory state
+// of the store and its peers is dropped (nothing is shut down cleanly: no StopPeer, no
+// region state change), the WAL and manifest are reopened from their files, the peers are
+// rebuilt from them exactly like at start-up, and the state machine is rebuilt by raft
+// re-delivering the committed log (the recorder starts empty, as raft's applied index
+// does). Every raft write is fsynced before it is acted on, so plain reopen = crash image.
+func (c *Cluster) crashRestart(s int) error {
+	if !c.sc.WAL {
+		return fmt.Errorf("restart needs a WAL-backed scenario")
+	}
+	for _, id := range c.pids {
+		if storeOf(id) == s {
+			_ = c.peers[id].Close()
+			delete(c.votes, id)
+		}
+	}
+	c.stores[s].Close()
+	_ = c.wals[s].Close()
+	_ = c.mans[s].Close()
+	if err := c.openStore(s); err != nil {
+		return err
+	}
+	for r := 1; r <= c.sc.Regions; r++ {
+		if err := c.startPeer(r, s); err != nil {
+			return err
+		}
+	}
+	for _, id := range c.pids {
+		if storeOf(id) == s {
+			if err := c.peers[id].Flush(); err != nil { // what the first tick after start-up does
+				c.errs = append(c.errs, fmt.Sprintf("flush%d:%v", id, err))
+			}
+		}
+	}
+	c.restarts[s]++
+	return nil
 }
 
 // Close stops every peer (pending ReadIndex waiters return) and the stores.
@@ -559,7 +644,7 @@ func (c *Cluster) Enabled() []string {
 		if f.Dup {
 			out = append(out, "u:"+l.String())
 		}
-		if f.Reorder {
+		if f.Reorder && allowed(f.ReorderTo, storeOf(l.to)) {
 			for k := 1; k < c.net.depth(l); k++ {
 				out = append(out, fmt.Sprintf("o:%s:%d", l, k))
 			}
@@ -569,6 +654,13 @@ func (c *Cluster) Enabled() []string {
 		for _, id := range c.pids {
 			if allowed(f.CampaignAt, storeOf(id)) && c.peers[id].Status().RaftState != myraft.StateLeader {
 				out = append(out, "c:"+strconv.FormatUint(id, 10))
+			}
+		}
+	}
+	if f.Restart && c.sc.WAL {
+		for s := 1; s <= NumStores; s++ {
+			if allowed(f.RestartAt, s) {
+				out = append(out, "r:"+strconv.Itoa(s))
 			}
 		}
 	}
@@ -670,6 +762,15 @@ func (c *Cluster) Apply(tr string) error {
 		}
 		if c.peers[id].Status().RaftState != myraft.StateFollower {
 			return fmt.Errorf("%speer %d hit its randomised election timeout at tick %d", RetryPrefix, id, ElectionTick)
+		}
+	case "r":
+		s, err := strconv.Atoi(arg)
+		if err != nil || s < 1 || s > NumStores {
+			return fmt.Errorf("bad restart %q", tr)
+		}
+		c.devs++
+		if err := c.crashRestart(s); err != nil {
+			return err
 		}
 	case "p":
 		s, err := strconv.Atoi(arg)
@@ -859,6 +960,15 @@ func (c *Cluster) Key() string {
 		for _, e := range ents {
 			fmt.Fprintf(&sb, " %d/%d:%s", e.Index, e.Term, entryTag(e))
 		}
+		if c.sc.Faults.Restart && allowed(c.sc.Faults.RestartAt, storeOf(id)) {
+			// what a crash-restart of this peer would recover (part of the future once restarts are possible)
+			if dhs, ok, err := p.VerifDurableHardState(); ok {
+				fmt.Fprintf(&sb, " durable=%d/%d/%d", dhs.Term, dhs.Vote, dhs.Commit)
+				if err != nil {
+					fmt.Fprintf(&sb, "(err %v)", err)
+				}
+			}
+		}
 		if len(st.Progress) > 0 {
 			ids := make([]uint64, 0, len(st.Progress))
 			for k := range st.Progress {
@@ -898,7 +1008,7 @@ func (c *Cluster) Key() string {
 	c.net.mu.Unlock()
 	for s := 1; s <= NumStores; s++ {
 		ids, seq := c.stores[s].VerifPendingProposals()
-		fmt.Fprintf(&sb, "S%d seq%d pend%v applied:", s, seq, ids)
+		fmt.Fprintf(&sb, "S%d inc%d seq%d pend%v applied:", s, c.restarts[s], seq, ids)
 		c.recs[s].mu.Lock()
 		for _, a := range c.recs[s].applied {
 			fmt.Fprintf(&sb, " r%d:%s#%d", a.Region, a.Tag, a.ReqID)
